@@ -157,6 +157,16 @@ func decode(c *mon.Ctx, e *ref.EBP) {
 		ebp.ReadEncoderBoundaryPoint([]byte{0x00, 0x00})
 		c.Count("decode_after_failed_decode")
 	}
+	if gen.HashString(string(in))%8 == 5 {
+		// right after an empty EBP (either flavour, freshly created or emptied) was asked for its bytes:
+		// nothing of that carries over
+		e0 := ebp.CreateComcastEBP()
+		_ = e0.Data()
+		e1 := ebp.CreateCableLabsEbp()
+		e1.SetIsEmpty(true)
+		_ = e1.Data()
+		c.Count("decode_after_data_of_an_empty_ebp")
+	}
 	x, err := ebp.ReadEncoderBoundaryPoint(in)
 	c.Eval(1)
 	if err != nil || x == nil {
